@@ -185,7 +185,8 @@ class SexpRenderer:
             _, teal, _, _, _ = NARY[n[1]]
             args = n[2]
             if len(args) == 1:
-                return self.e(args[0])
+                # a one-operand NaryExpr is not a constant for the opcode selection of Substring/Extract/Suffix
+                return atoms(["seq", self.e(args[0])])
             acc = self.e(args[0])
             for a in args[1:]:
                 acc = atoms(["prim", teal, "()", acc, self.e(a)])
